@@ -5,6 +5,24 @@ HERE = os.path.dirname(os.path.dirname(os.path.abspath(__file__)))
 BASE_OFF = "cd /repo && GOFLAGS=-mod=mod GOPROXY=off GOSUMDB=off GOTOOLCHAIN=local go test -json -vet=off -count=1 -timeout 25m ./..."
 
 CHECKS = {
+ "C01": dict(level="exploration", tech="runtime monitoring: round-trip oracle (zoo.Equiv, documented normalisations only) over a seeded/boundary type zoo, child processes with journal",
+   text="Every zoo type (scalars, one struct per slice element kind and map shape, embedded, custom-named, recursive, 24-class Bag, top-level slices/maps/scalars) is driven through ExtractTypeNameMap/ToBytes/ToObject and Serializer.ToBytes/ToObject with zero values, seeded values, every table length (thorough: every length 0..600 plus 1023..2100) and 1..25 classes per message; each execution is judged by an independent comparator.",
+   note="Trusted: zoo.Equiv / zoo generators. Shapes listed by open known findings (top-level unnamed maps, []T together with []*T) are kept out of the main stream and replayed from committed witnesses.", ref="DESIGN.md 4 C01"),
+ "C02": dict(level="exploration", tech="runtime monitoring: every emitted byte stream parsed by an independent reference decoder (hspec) and compared with the intended abstract value by bisimulation + identity on struct pointers",
+   text="The bytes of ToBytes and Encoder.WriteObject for every generated zoo value are parsed by a strict grammar-derived decoder (no bytes missing or left over) and compared with zoo.Denote: class names, lower-cased field names in order, definition before use and index, registered list type name, true element count, ref ordinals.",
+   note="Trusted: hspec (self-tested on the published examples and Java-produced bytes at the start of every run) and zoo.Denote. The oracle is the published document, not a Java implementation's deviations.", ref="DESIGN.md 4 C02"),
+ "C03": dict(level="exploration", tech="runtime monitoring: reference encoder enumerating/sampling every legal rendering (choice stream) + differential oracle against the original Go value",
+   text="For abstract values denoting generated Go values the reference encoder produces every legal rendering when the choice space has <= 4096 points (else seeded vectors + the all-maximal one) and every published example verbatim; each rendering is decoded through ToObject and Decoder.ReadObject and must equal the original (value, sharing, framing).",
+   note="Trusted: hspec reference encoder (refdec(refenc(A,c)) == A self-test). Type strings are never added or dropped (they are part of the value).", ref="DESIGN.md 4 C03"),
+ "C04": dict(level="exploration", tech="runtime monitoring: exhaustive small pointer graphs + random graphs, wire-level ref-ordinal oracle (reference decoder) and pointer-identity oracle on the decoded graph",
+   text="Every edge assignment of 1..3 (thorough: 1..4) two-slot nodes x 9 fillers in front of the shared pointers, wrapped in a holder with probe references, plus random graphs to 200 nodes and shared slices/maps, is encoded; refs on the wire must resolve (document numbering) to the intended nodes, the decoded graph must have the same sharing partition, and the reference encoder's rendering must decode to the same graph; encoding must finish within a CPU budget.",
+   note="Trusted: hspec, zoo.SameSharing. 'Object' identity = struct reached through a pointer; slices and maps have value semantics. Termination restated as bounded progress (5 CPU-s, 64 MiB stack).", ref="DESIGN.md 4 C04"),
+ "C05": dict(level="exploration", tech="runtime monitoring: reference-encoded class definitions (permuted / dropped / extra fields, table positions 0..40) decoded by the real decoder, expected value computed by the harness",
+   text="All 120 permutations and all 32 subsets of a 5-field definition, every extra-field kind at every insertion point, positions 0..40 reached by earlier stream values / enclosing list / hoisted definitions, short and long instance forms, and seeded combinations are decoded; the result must equal the by-name expectation and consume the stream exactly.",
+   note="Trusted: hspec reference encoder; the harness verifies each built stream with the reference decoder before use.", ref="DESIGN.md 4 C05"),
+ "C06": dict(level="exploration", tech="runtime monitoring: offline checker over recorded write/read histories (counting writer offsets vs metered reader without read-ahead vs reference framing)",
+   text="Histories of 1..50 mixed values on one stream through the encoder/serializer streaming entry points (also crossed) are read back; per read the checker demands value equivalence, exact cumulative byte consumption, identity of re-sent pointers and absence of internal carrier types. Thorough adds all histories of length <= 3 over a 12-value alphabet.",
+   note="Trusted: mon.MeteredReader (no read-ahead), hspec framing. Maps per history are merged from its own values (wire-name collisions excluded).", ref="DESIGN.md 4 C06"),
  "C07": dict(level="exploration", tech="runtime monitoring: boundary monitor (counting writer / metered reader) + independent shortest-form table + reference decoder; exhaustive int32 sweep",
    text="Every int32 (thorough: all 2^32, quick: windows at every form boundary and seeded windows) and boundary/sampled int64 values are executed through the real streaming and one-shot entry points; an oracle independent of the library (the document's form tables, the reference decoder) judges value, framing and form of each observed execution. Go-kind conversions are exercised at four positions including values outside the wire type.",
    note="Trusted: hspec form tables and reference decoder (self-tested against the published examples at the start of every run); int64 is sampled, not enumerated.", ref="DESIGN.md 4 C07"),
@@ -17,6 +35,27 @@ CHECKS = {
  "C10": dict(level="exploration", tech="runtime monitoring: round-trip oracle with integer (sec,nsec) arithmetic over boundary table and uniform samples",
    text="Boundary instants and uniformly random instants over years 1..9999 (whole-millisecond and finer) at four positions are round-tripped through the real API; the decoded instant is compared with integer arithmetic that cannot overflow.",
    note="Trusted: Go time package; the wire unit of the compact form is C02's business.", ref="DESIGN.md 4 C10"),
+ "C11": dict(level="exploration", tech="runtime monitoring: differential oracle (used instance vs freshly constructed instance) with table-sensitive probes + before/after snapshots of inputs and caller maps",
+   text="All histories up to length 2 (thorough 3) over 7 operation kinds and seeded histories to length 30 are applied to one Encoder/Decoder/Serializer/pooled instance, then encode probes (re-sending earlier pointers and classes) and reference-encoded decode probes (class/type/ref index 0) are compared with a fresh instance; every call is bracketed by deep snapshots of its inputs and of the complete name/type maps.",
+   note="Trusted: the fresh instance is the model; errors compared by presence and address-masked message.", ref="DESIGN.md 4 C11"),
+ "C12": dict(level="exploration", tech="Go race detector (-race worker, reports counted from the log) + differential oracle: concurrent result vs result of the same call run alone",
+   text="N in {2,4,16,64} goroutines x GOMAXPROCS {2,4,16}, each with its own instance (constructed or pooled) over the same complete maps and the same read-only inputs, replay a corpus whose expected result classes were obtained sequentially; mismatches, race reports with a library frame, runtime aborts and writes to the shared maps are violations. Evidence records how many calls really overlapped.",
+   note="The static clause (no write to package-level state on ANY path) is outside runtime monitoring; only driven paths are decided. A race report without a library frame is a harness bug (reported as such).", ref="DESIGN.md 4 C12"),
+ "C13": dict(level="exploration", tech="runtime monitoring: error-presence oracle over unsupported kinds substituted at every position class, sibling values checked by the C02 wire oracle",
+   text="16 unsupported kinds x 15 position classes x 3 entry points plus typed containers of unsupported elements: the encode call must return an error without panicking; when it (wrongly) succeeds the bytes are parsed by the reference decoder to document what was emitted; the sibling with the bad sub-value replaced must encode to well-formed bytes denoting it.",
+   note="Trusted: hspec for the sibling half.", ref="DESIGN.md 4 C13"),
+ "C14": dict(level="exploration", tech="runtime monitoring in sandboxed child processes (RLIMIT_AS, journal, fatal-death recovery) with allocation / reader-call / CPU meters; structure-aware mutation driven by the reference decoder's annotations",
+   text="Random byte strings to 64 KiB, every prefix of valid messages of every zoo shape, annotation-driven mutations (tag, index, length, count, type-name, sub-value delete/duplicate/transpose, byte edits), crafted declared-length attacks, against complete / empty / one-missing / adversarial type maps through seven decode entry points; each call must return without panic or process death within allocation, reader-call and CPU budgets proportional to the input.",
+   note="Budgets: alloc <= 1 MiB + 4096*len, reader calls <= 4096 + 64*len, CPU <= 20 s; stack proportional to nesting depth is allowed. The parent watchdog yields inconclusive, never a verdict.", ref="DESIGN.md 4 C14"),
+ "C15": dict(level="fault_enumeration", tech="fault injection at the caller-owned io.Writer: every write index k of every encode call x 4 fault kinds, error-presence oracle",
+   text="For each generated value a fault-free run counts the Write calls W of the encode call; every k in 1..W x {error once, error from k on, short count with io.ErrShortWrite, short count with nil error} is injected through Encoder.WriteTo, Encoder.WriteObject (1st..3rd value of a stream), Serializer.WriteTo and Serializer.Write; whenever the fault fired the call must return a non-nil error.",
+   note="Exhaustive in k per (value, entry point, fault kind); values are sampled from the zoo at small sizes.", ref="DESIGN.md 4 C15"),
+ "C16": dict(level="exploration", tech="runtime monitoring: closure/consistency oracle (harness type walk with visited set) over extraction results from six witness kinds, second-value round trips, child process with bounded stack",
+   text="For every zoo type and witness {zero, &T{}, empty containers, one element, full, cyclic} ExtractTypeNameMap/TypeMapFrom/NameMapFrom/TypeMapOf must return (64 MiB stack limit), contain every reachable struct and slice type under its wire name with consistent name and type maps, and suffice to round-trip other values of the type.",
+   note="Termination restated as bounded progress; []T and []*T may share one list name (either accepted).", ref="DESIGN.md 4 C16"),
+ "C17": dict(level="exploration", tech="history recording at the client boundary + online ownership table (CAS) + offline conservation / drain checks + porcupine linearizability against a nondeterministic set model + runtime deadlock detector + Go race detector",
+   text="Get/Return by 1..64 goroutines on pools of size 0..8 from the three constructors under four op mixes; every call recorded with call/return sequence numbers; double hand-out, conservation, drain <= size without duplicates, linearizability of many short histories against a model as weak as the statement, non-blocking Get-only/Return-only phases (timer-free, decided by the runtime's deadlock detector) and usability of fresh objects are checked; concurrent phases also run under -race.",
+   note="The model is deliberately not FIFO and allows dropping below capacity. porcupine timeouts and the parent watchdog yield inconclusive.", ref="DESIGN.md 4 C17"),
 }
 ALL = ["C%02d" % i for i in range(1, 18)]
 NOT_YET = "check not built yet in this round (runtime-monitoring design exists in DESIGN.md; will be claimed when its monitor runs clean)"
